@@ -45,7 +45,7 @@ class CM:
     def __enter__(self):
         return self.val
 
-    def __exit__(self, *exc):
+    def __exit__(self, *exc: object) -> bool:  # declared bool: mypy must treat the with block as possibly swallowing
         return bool(self.swallow) and exc[0] is not None
 '''
 
